@@ -213,6 +213,27 @@ def run(tier, seed, rng):
                     f"differ from the static reference, which gives {rstat[(T, L, kind)][:300]}")
         if bad:
             failures.append(dict(kind='oracle', sig='runtime-ref-begins', what=what, classes=rsrc, cls=H + T, **(dict(raw=raw.hex(), offset=0) if kind == 'rt' else dict(value=f"{H}{T}(name={b'qrstu'[:L]!r}, p={rvals[T]}, t=33)")), observed=o))
+    # ---- a forward jump that leaves a hole, then a BACKWARD shift into the hole that fills it only partly (every position and
+    # length): the bytes left unwritten are holes on output too, every field lands where it is parsed from; alone and referenced at 1
+    gsrc, gcases, gmeta = "", [], []
+    for K in range(2, 8):
+        for S in range(2, K + 1):
+            for L in range(1, 4):
+                start = K + 1 - S
+                if start < 1 or start + L > K:
+                    continue
+                nm = f"Gap{K}_{S}_{L}"
+                gsrc += (f"class {nm}(Packet):\n    a = Int(1)\n    i = Int(1).at({K})\n    d = Data({L}).shift(-{S})\n"
+                         f"class O{nm}(Packet):\n    tag = Int(1)\n    gap = Ref({nm})\n")
+                buf = bytearray(b'.' * (K + 1)); buf[0] = 1; buf[K] = 0xff; buf[start:start + L] = b'DEF'[:L]
+                gcases.append(dict(cls=nm, op='roundtrip', raw=bytes(buf).hex(), offset=0)); gmeta.append((nm, bytes(buf)))
+                gcases.append(dict(cls='O' + nm, op='roundtrip', raw=(b'\x07' + bytes(buf)).hex(), offset=0)); gmeta.append(('O' + nm, b'\x07' + bytes(buf)))
+    gres = run_impl(os.path.join(VERIF, 'harness', 'impl_pkt.py'), dict(header=HEADER_PY, blocks=[dict(name='gaps', src=gsrc)], modname='c10g', cases=gcases))
+    dist['hole_then_backward_shift'] = len(gcases)
+    for (nm, raw), o in zip(gmeta, gres['outcomes']):
+        if 'ok' not in o or o.get('packed') != {'ok': raw.hex()}:
+            failures.append(dict(kind='oracle', sig='hole-backward', what=f"a hole left by a forward jump and partly filled by a backward shift: the output {o.get('packed')} does not hold the fields where they were read ({raw.hex()})",
+                                 classes='class ' + 'class '.join(c for c in gsrc.split('class ')[1:] if c.startswith((nm.lstrip('O') + '(', nm + '('))), cls=nm, raw=raw.hex(), offset=0, observed=o, required=dict(packed=raw.hex())))
     # ---- an EMPTY field placed inside bytes written before it, then a field placed further on: on output the later field must land
     # where it was read (an empty chunk in the middle must not move the cursor the fill is measured from); every position of the
     # empty field, lengths 0..2, targets 8..11, directly and nested at offset 1 (start offset 0: see finding D10 for other offsets)
